@@ -16,6 +16,7 @@ static void *body(void *a)
     int t = (int) (intptr_t) a, i;
     pthread_barrier_wait(&bar);
     RES[t][0] = sodium_init();
+    pthread_barrier_wait(&bar); if (t == 0) ops_shared_setup(); pthread_barrier_wait(&bar);      /* shared const objects are prepared by one thread, published by the barrier */
     for (i = 0; i < NOPS; i++) { int k = (i + t * 7) % NOPS; RES[t][1 + k] = OPS[k].fn(); }
     return NULL;
 }
